@@ -23,7 +23,7 @@ PROP = "C25"
 READY = True
 DRIVER = "dm_hlg"
 LEAN_MODULES = ["DaskModel.Props.C25"]
-CASE_TIMEOUT_S = 30
+CASE_TIMEOUT_S = 60   # the first case of a run also pays the import of dask.array (slow on a loaded machine)
 LEVEL_TEXT = ("Lean 4 theorems over a chunk-metadata model of a pipeline language (leaves, broadcasting elementwise ops after "
               "unify_chunks, transpose, axis removal, keepdims reduction, new axis, concatenate, stack): `pipeline_meta_ok` — by "
               "induction over the pipeline, whenever the lazy chunks are defined every block the pipeline's per-block kernels "
@@ -155,6 +155,27 @@ def gen_modelled(rng, depth):
     return p, shape
 
 
+def _flat(keys):
+    if isinstance(keys, list):
+        for k in keys:
+            yield from _flat(k)
+    else:
+        yield keys
+
+
+def _grid_shape(keys, ndim):
+    """shape of the nested list `__dask_keys__` returns"""
+    out = []
+    cur = keys
+    for _ in range(ndim):
+        out.append(len(cur))
+        if not cur:
+            out += [0] * (ndim - len(out))
+            break
+        cur = cur[0]
+    return tuple(out)
+
+
 def _check_blocks(ctx, d, x, what, maxblocks=24):
     """the clauses of the statement on one dask array `d` whose NumPy value is `x`"""
     import numpy as np
@@ -165,6 +186,36 @@ def _check_blocks(ctx, d, x, what, maxblocks=24):
     if any(sum(c) != s for c, s in zip(d.chunks, d.shape)):
         ctx.fail(what + ": chunks do not sum to the shape", observed=[list(c) for c in d.chunks])
         return False
+    # the other lazy attributes derived from chunks/dtype
+    import math
+    derived = {"ndim": (d.ndim, x.ndim), "size": (d.size, x.size), "numblocks": (tuple(d.numblocks), tuple(len(c) for c in d.chunks)),
+               "npartitions": (d.npartitions, math.prod(len(c) for c in d.chunks)),
+               "chunksize": (tuple(d.chunksize), tuple(max(c) for c in d.chunks)),
+               "keys-grid": (_grid_shape(d.__dask_keys__(), d.ndim), tuple(len(c) for c in d.chunks))}
+    if x.ndim:
+        derived["len"] = (len(d), len(x))
+    if d.dtype == x.dtype:
+        derived["nbytes"] = (d.nbytes, x.nbytes)
+        derived["itemsize"] = (d.itemsize, x.itemsize)
+    for k, (got, want) in derived.items():
+        if got != want:
+            ctx.fail(what + f": lazy attribute .{k} is inconsistent", observed=repr(got), expected=repr(want))
+            return False
+    flat_keys = list(_flat(d.__dask_keys__()))
+    if len(set(flat_keys)) != len(flat_keys) or any(k[0] != d.name for k in flat_keys):
+        ctx.fail(what + ": __dask_keys__ has duplicate or foreign keys")
+        return False
+    nested = d.__dask_keys__()
+    if d.ndim == 0 and nested != [(d.name,)]:
+        ctx.fail(what + ": __dask_keys__ of a 0-d array is not [(name,)]", observed=str(nested))
+        return False
+    for idx in itertools.islice(itertools.product(*[range(len(c)) for c in d.chunks]), 40 if d.ndim else 0):
+        k = nested
+        for i in idx:
+            k = k[i]
+        if k != (d.name,) + idx:
+            ctx.fail(what + ": __dask_keys__ does not place key (name, *idx) at position idx", observed=[list(idx), str(k)])
+            return False
     full = np.asarray(d.compute(scheduler="sync"))
     if full.shape != x.shape:
         ctx.fail(what + ": computed shape differs from lazy shape", observed=list(full.shape), expected=list(d.shape))
